@@ -117,7 +117,8 @@ theorem setBitRaw_lt (bits d k : Nat) (v : Bool) (hk : k < bits) (hd : d < 2 ^ b
   have : ¬ j = k := by omega
   simp [this, testBit_eq_false_of_lt hd hj]
 
-theorem testBit_and_one_shiftLeft (d k : Nat) : (d &&& (1 <<< k) != 0) = d.testBit k := by
+theorem testBit_and_one_shiftLeft (d k : Nat) : getBitRaw d k = d.testBit k := by
+  unfold getBitRaw
   rw [Nat.one_shiftLeft]
   by_cases h : d.testBit k
   · have : d &&& 2 ^ k ≠ 0 := by
